@@ -396,10 +396,7 @@ func sweepC18(tier string, shard, shards int, emit func(C18Case)) {
 		if oi%shards != shard {
 			continue
 		}
-		maxN := 3
-		if tier != "thorough" {
-			maxN = 2
-		}
+		maxN := 3 // (quick: 8-value pool, thorough: 12-value pool)
 		for n := 0; n <= maxN; n++ {
 			idx := make([]int, n)
 			for {
@@ -428,7 +425,7 @@ func sweepC18(tier string, shard, shards int, emit func(C18Case)) {
 
 var propC18 = Prop[C18Case]{
 	ID:    "C18",
-	Rule:  "single-operator expressions (op a1..an) for every arithmetic/logic/comparison operator and alias, n = 0..6, operands from the int64 extremes / small ints / booleans / strings with a wrong-typed operand (string, bool, int, list, nil, float, set) at any position with probability 1/10 each, passed as literals and as variables, configs none/folding/fast/all. Oracles: independent operator model through R (and/or short-circuit), plus model-free laws on the engine (alias = named form, ne=!eq, le=!gt, ge=!lt, between = ge&&le, n-ary fold = nested binary fold, a-b = a+(-1*b), n-ary eq = pairwise). Sweep: exhaustive operator x count x pool^n (quick: 8-value pool, n<=2; thorough: 12-value pool, n<=3). Non-trivial = an operand at an int64 extreme, a zero divisor at position >= 3, or an expected error (wrong count/type); distinct by expression + operands",
+	Rule:  "single-operator expressions (op a1..an) for every arithmetic/logic/comparison operator and alias, n = 0..6, operands from the int64 extremes / small ints / booleans / strings with a wrong-typed operand (string, bool, int, list, nil, float, set) at any position with probability 1/10 each, passed as literals and as variables, configs none/folding/fast/all. Oracles: independent operator model through R (and/or short-circuit), plus model-free laws on the engine (alias = named form, ne=!eq, le=!gt, ge=!lt, between = ge&&le, n-ary fold = nested binary fold, a-b = a+(-1*b), n-ary eq = pairwise). Sweep: exhaustive operator x count x pool^n for n<=3 (quick: 8-value pool; thorough: 12-value pool). Non-trivial = an operand at an int64 extreme, a zero divisor at position >= 3, or an expected error (wrong count/type); distinct by expression + operands",
 	Gen:   genC18,
 	Check: checkC18,
 	Sweep: sweepC18,
